@@ -11,6 +11,7 @@ import GlareModel.Core.CatalogRun
 import GlareModel.Core.Collection
 import GlareModel.Core.Tokens
 import GlareModel.Core.Unify
+import GlareModel.Core.Footer
 
 /-! `gmodel`: line-protocol driver. Reads `case <n> <component> ...` lines on stdin and
 prints `out <n> ...` lines computed by the code-shaped model. -/
@@ -347,6 +348,18 @@ def runUnify (args : List String) : String :=
     | _, _ => "bad-case"
   | _ => "bad-case"
 
+/-- `case N footer <hex of the last 8 bytes | -> <file size>`: the repaired loader's verdict. -/
+def runFooter (args : List String) : String :=
+  match args with
+  | [h, sz] =>
+    match (if h == "-" then some [] else parseHexBytes h), sz.toNat? with
+    | some tail, some size =>
+      match Footer.load true tail size with
+      | .err a => s!"err alloc={a}"
+      | .ok off len a => s!"ok off={off} len={len} alloc={a}"
+    | _, _ => "bad-case"
+  | _ => "bad-case"
+
 def step (line : String) : Option String :=
   -- `case N sem <payload>`: the payload keeps its spaces
   match (line.trimAscii.toString.splitOn " ") with
@@ -362,6 +375,7 @@ def step (line : String) : Option String :=
   | "case" :: n :: "cast" :: args => some s!"out {n} {runCast args}"
   | "case" :: n :: "like" :: args => some s!"out {n} {runLike args}"
   | "case" :: n :: "rle" :: args => some s!"out {n} {runRle args}"
+  | "case" :: n :: "footer" :: args => some s!"out {n} {runFooter args}"
   | "case" :: n :: "unify" :: args => some s!"out {n} {runUnify args}"
   | "case" :: n :: "tok" :: args => some s!"out {n} {runTok args}"
   | "case" :: n :: "collection" :: args => some s!"out {n} {runCollection args}"
